@@ -33,6 +33,7 @@ import (
 	"go/types"
 	"io"
 	"reflect"
+	"sort"
 	"strings"
 	"sync"
 	"unicode/utf8"
@@ -90,7 +91,7 @@ func c38PlainByte(c byte) bool {
 // c38Set is a set of byte values.
 type c38Set [4]uint64
 
-func (s *c38Set) add(c byte)          { s[c>>6] |= 1 << (c & 63) }
+func (s *c38Set) add(c byte) { s[c>>6] |= 1 << (c & 63) }
 func (s c38Set) subsetOf(o c38Set) bool {
 	for i := range s {
 		if s[i]&^o[i] != 0 {
@@ -231,6 +232,11 @@ func (m *c38Mirror) typ(t types.Type) reflect.Type {
 	}
 	e := m.e
 	var rt reflect.Type
+	if c38IsRawMessage(t) {
+		rt = reflect.TypeOf(json.RawMessage{})
+		m.cache[t] = rt
+		return rt
+	}
 	if n, ok := t.(*types.Named); ok && n.NumMethods() > 0 {
 		for i := 0; i < n.NumMethods(); i++ {
 			switch n.Method(i).Name() {
@@ -271,17 +277,35 @@ func (m *c38Mirror) typ(t types.Type) reflect.Type {
 		fs := make([]reflect.StructField, u.NumFields())
 		for i := range fs {
 			f := u.Field(i)
-			if !f.Exported() || f.Embedded() {
-				e.unsupported("encoding/json model: unexported or embedded field " + f.Name())
+			if !f.Exported() {
+				e.unsupported("encoding/json model: unexported field " + f.Name())
 			}
-			fs[i] = reflect.StructField{Name: f.Name(), Type: m.typ(f.Type()), Tag: reflect.StructTag(u.Tag(i))}
+			if f.Embedded() {
+				if _, isStruct := f.Type().Underlying().(*types.Struct); !isStruct {
+					e.unsupported("encoding/json model: embedded non-struct field " + f.Name())
+				}
+			}
+			fs[i] = reflect.StructField{Name: f.Name(), Type: m.typ(f.Type()), Tag: reflect.StructTag(u.Tag(i)), Anonymous: f.Embedded()}
 		}
 		rt = reflect.StructOf(fs)
 	case *types.Slice:
 		if b, ok := u.Elem().Underlying().(*types.Basic); ok && b.Kind() == types.Uint8 {
-			e.unsupported("encoding/json model: []byte field")
+			rt = reflect.TypeOf([]byte(nil))
+		} else {
+			rt = reflect.SliceOf(m.typ(u.Elem()))
 		}
-		rt = reflect.SliceOf(m.typ(u.Elem()))
+	case *types.Pointer:
+		rt = reflect.PointerTo(m.typ(u.Elem()))
+	case *types.Map:
+		if b, ok := u.Key().Underlying().(*types.Basic); !ok || b.Kind() != types.String {
+			e.unsupported("encoding/json model: map with a non-string key")
+		}
+		rt = reflect.MapOf(reflect.TypeOf(""), m.typ(u.Elem()))
+	case *types.Interface:
+		if u.NumMethods() != 0 {
+			e.unsupported("encoding/json model: non-empty interface field")
+		}
+		rt = reflect.TypeOf((*any)(nil)).Elem()
 	}
 	if rt == nil {
 		e.unsupported(fmt.Sprintf("encoding/json model: unsupported type %s", t))
@@ -383,14 +407,76 @@ func (m *c38Mirror) toReflect(rv reflect.Value, t types.Type, v Value) {
 		if s.arr == nil {
 			return
 		}
+		if b, ok := u.Elem().Underlying().(*types.Basic); ok && b.Kind() == types.Uint8 {
+			bs := make([]byte, s.len)
+			for i, tm := range e.byteSliceTerms(s) {
+				if !tm.IsConst() {
+					e.unsupported("encoding/json model: symbolic byte-slice field")
+				}
+				bs[i] = byte(tm.Val)
+			}
+			rv.SetBytes(bs)
+			return
+		}
 		out := reflect.MakeSlice(rv.Type(), s.len, s.len)
 		for i := 0; i < s.len; i++ {
 			m.toReflect(out.Index(i), u.Elem(), e.loadLoc(s.arr.kids[s.off+i]))
 		}
 		rv.Set(out)
+	case *types.Pointer:
+		ptr, ok := v.(Pointer)
+		if !ok {
+			e.unsupported("encoding/json model: pointer field holds a non-pointer")
+		}
+		if ptr.IsNil() {
+			return
+		}
+		nv := reflect.New(rv.Type().Elem())
+		m.toReflect(nv.Elem(), u.Elem(), e.load(ptr))
+		rv.Set(nv)
+	case *types.Map:
+		mo, _ := v.(*MapObj)
+		if mo == nil {
+			return
+		}
+		out := reflect.MakeMap(rv.Type())
+		for _, en := range mo.entries {
+			k, ok := en.key.(*Str).Concrete()
+			if !ok {
+				e.unsupported("encoding/json model: symbolic map key")
+			}
+			ev := reflect.New(rv.Type().Elem()).Elem()
+			m.toReflect(ev, u.Elem(), en.val)
+			out.SetMapIndex(reflect.ValueOf(k), ev)
+		}
+		rv.Set(out)
+	case *types.Interface:
+		ifc, ok := v.(Iface)
+		if !ok {
+			e.unsupported("encoding/json model: interface field holds a non-interface")
+		}
+		if ifc.t == nil {
+			return
+		}
+		if g, isGeneric := ifc.v.(*c38Generic); isGeneric {
+			rv.Set(reflect.ValueOf(g.v))
+			return
+		}
+		nv := reflect.New(m.typ(ifc.t)).Elem()
+		m.toReflect(nv, ifc.t, ifc.v)
+		rv.Set(nv)
 	default:
 		e.unsupported(fmt.Sprintf("encoding/json model: unsupported value type %s", t))
 	}
+}
+
+// c38Generic is a generic JSON value (what encoding/json decodes into an empty interface:
+// map[string]any, []any, float64, string, bool, nil) kept as an opaque concrete Go value.
+type c38Generic struct{ v any }
+
+func c38IsRawMessage(t types.Type) bool {
+	n, ok := t.(*types.Named)
+	return ok && n.Obj().Pkg() != nil && n.Obj().Pkg().Path() == "encoding/json" && n.Obj().Name() == "RawMessage"
 }
 
 func (m *c38Mirror) fromReflect(rv reflect.Value, t types.Type) Value {
@@ -419,12 +505,44 @@ func (m *c38Mirror) fromReflect(rv reflect.Value, t types.Type) Value {
 		if rv.IsNil() {
 			return Slice{}
 		}
+		if b, ok := u.Elem().Underlying().(*types.Basic); ok && b.Kind() == types.Uint8 {
+			bs := rv.Bytes()
+			ts := make([]*Term, len(bs))
+			for i, c := range bs {
+				ts[i] = e.ts.BV(8, uint64(c))
+			}
+			return e.newByteSlice(ts)
+		}
 		n := rv.Len()
 		arr := e.newArrayLoc(u.Elem(), n)
 		for i := 0; i < n; i++ {
 			e.storeLoc(arr.kids[i], m.fromReflect(rv.Index(i), u.Elem()))
 		}
 		return Slice{arr: arr, len: n, cap: n}
+	case *types.Pointer:
+		if rv.IsNil() {
+			return Pointer{}
+		}
+		l := e.newLoc(u.Elem())
+		e.storeLoc(l, m.fromReflect(rv.Elem(), u.Elem()))
+		return Pointer{loc: l}
+	case *types.Map:
+		if rv.IsNil() {
+			return (*MapObj)(nil)
+		}
+		e.objID++
+		mo := &MapObj{kt: u.Key(), vt: u.Elem(), id: e.objID}
+		keys := rv.MapKeys()
+		sort.Slice(keys, func(i, j int) bool { return keys[i].String() < keys[j].String() })
+		for _, k := range keys {
+			mo.entries = append(mo.entries, &mapEntry{key: &Str{s: k.String()}, val: m.fromReflect(rv.MapIndex(k), u.Elem())})
+		}
+		return mo
+	case *types.Interface:
+		if rv.IsNil() {
+			return Iface{}
+		}
+		return Iface{t: t, v: &c38Generic{v: rv.Interface()}}
 	}
 	e.unsupported(fmt.Sprintf("encoding/json model: unsupported value type %s", t))
 	return nil
@@ -633,7 +751,9 @@ func c38Digest(e *Exec, stream []*Term) []*Term {
 
 func init() {
 	extraIntrinsics = append(extraIntrinsics, func(p *Program) {
-		if p.check == nil || p.check.Property != "C38" {
+		// C24 uses only the exact encoding/json model of this file (Decode of concrete JSON documents)
+		jsonOnly := p.check != nil && p.check.Property == "C24"
+		if p.check == nil || (p.check.Property != "C38" && !jsonOnly) {
 			return
 		}
 		// the encoding/json models of intr_C40.go and json.go register after this file and would replace
@@ -643,7 +763,11 @@ func init() {
 		extraIntrinsics[n-1] = func(q *Program) {
 			last(q)
 			if q == p {
-				c38Register(q)
+				if jsonOnly {
+					c38RegisterJSON(q)
+				} else {
+					c38Register(q)
+				}
 			}
 		}
 	})
@@ -852,7 +976,12 @@ func c38Register(p *Program) {
 		return &Str{s: fmt.Sprintf(format, goArgs...)}
 	}
 
-	// ---- encoding/json
+	c38RegisterJSON(p)
+}
+
+// c38RegisterJSON: exact encoding/json (the real library on a reflect mirror of the Go types).
+func c38RegisterJSON(p *Program) {
+	I := p.intrinsics
 	I["encoding/json.Marshal"] = func(e *Exec, fr *frame, args []Value) Value {
 		src, ok := args[0].(Iface)
 		if !ok || src.t == nil {
